@@ -364,6 +364,12 @@ def one(F, case, ver, base, vlevel):
     rep = representable(dt, spec, v)
     if rep is None:
         return
+    if decl and when == "after":
+        # the value is first stored under the default datatype of its class and re-declared afterwards:
+        # only judged when it is representable under that default too (e.g. [10**30] is no B array)
+        d0 = default_datatype(spec, v)
+        if d0 is None or representable(d0, spec, v) is not True:
+            return
     line = gfapy.Line(base, vlevel=vlevel, version=ver)
     refused = False
     try:
